@@ -323,6 +323,14 @@ NATIVE_REGRESSIONS = {
 
 
 def native_regressions(chk):
+    try:  # the one syntactic rewrite of the extraction, executed natively next to the original (tools/selftest_normalise.py)
+        p_ = subprocess.run([sys.executable, os.path.join(VERIF, "tools", "selftest_normalise.py")], capture_output=True, text=True, timeout=120)
+        if p_.returncode != 0:
+            chk.fault(f"normalisation self-test failed: {p_.stdout[-300:]} {p_.stderr[-300:]}")
+        else:
+            chk.notes.append(p_.stdout.strip().splitlines()[-1])
+    except Exception as e:  # noqa: BLE001
+        chk.fault(f"normalisation self-test could not run: {e!r}")
     for script, payload, obligation in NATIVE_REGRESSIONS.get(chk.prop, ()):
         name = f"{chk.prop}.native_regression.{script[:-3]}" + ("." + "_".join(f"{k}_{v}" for k, v in payload.items()) if payload else "")
         ob = chk.obligation(name, f"thorough tier cross-check (NOT a proof, bounded: one forced schedule): the scenario that once reproduced the defect behind {obligation} does not reproduce on the current tree")
